@@ -52,7 +52,7 @@ Theorem exponential_inverse_transform : forall mean u x, 0 < mean -> 0 < u ->
   (- mean * ln u <= x <-> exp (- x / mean) <= u).
 Proof.
   intros mean u x Hm Hu. split; intros K.
-  - rewrite <- (exp_ln u) at 2 by assumption.
+  - rewrite <- (exp_ln u) by assumption.
     destruct (Rle_lt_or_eq_dec _ _ K) as [L|E].
     + left. apply exp_increasing. apply Rmult_lt_reg_r with mean; [lra|].
       unfold Rdiv. rewrite Rmult_assoc, Rinv_l by lra. lra.
@@ -76,7 +76,7 @@ Lemma Rpower_le_iff : forall a b z, 0 < a -> 0 < b -> 0 < z -> (Rpower a z <= Rp
 Proof.
   intros a b z Ha Hb Hz. split; intros K.
   - destruct (Rle_or_lt a b) as [L|L]; [assumption|].
-    exfalso. pose proof (Rlt_Rpower_l z b a Hz (conj Hb L)). lra.
+    exfalso. pose proof (Rlt_Rpower_l b a z Hz (conj Hb L)). lra.
   - destruct K as [K|K]; [left; apply Rlt_Rpower_l; [assumption|split; assumption]|subst; right; reflexivity].
 Qed.
 
@@ -95,7 +95,7 @@ Proof.
   { rewrite <- (Rpower_le_iff (Rpower (- ln u) (1 / alpha)) (x / beta) alpha) by (try apply Rpower_pos; lra).
     rewrite Rpower_mult. replace (1 / alpha * alpha) with 1 by (field; lra). rewrite Rpower_1 by lra. tauto. }
   rewrite E1, E2. split; intros K.
-  - rewrite <- (exp_ln u) at 2 by lra. destruct K as [K|K]; [left; apply exp_increasing; lra|right; f_equal; lra].
+  - rewrite <- (exp_ln u) by lra. destruct K as [K|K]; [left; apply exp_increasing; lra|right; f_equal; lra].
   - assert (L : - Rpower (x / beta) alpha <= ln u).
     { rewrite <- (ln_exp (- Rpower (x / beta) alpha)).
       destruct K as [K|K]; [left; apply ln_increasing; [apply exp_pos|assumption]|right; f_equal; assumption]. }
@@ -126,7 +126,7 @@ Proof.
   split; intros K.
   - assert (Ek : k = (lo + f)%Z) by (inversion K; reflexivity). subst k.
     replace (lo + f - lo)%Z with f by lia. replace (lo + f - lo + 1)%Z with (f + 1)%Z by lia.
-    rewrite plus_IZR. split.
+    rewrite (plus_IZR f 1). split.
     + apply Rmult_le_reg_r with (IZR (hi - lo + 1)); [assumption|].
       unfold Rdiv. rewrite Rmult_assoc, Rinv_l by lra. lra.
     + apply Rmult_lt_reg_r with (IZR (hi - lo + 1)); [assumption|].
@@ -140,7 +140,7 @@ Proof.
       unfold Rdiv in K2. rewrite Rmult_assoc, Rinv_l in K2 by lra. lra. }
     assert (Ef : f = (k - lo)%Z).
     { assert (A : IZR f < IZR (k - lo + 1)) by lra. apply lt_IZR in A.
-      assert (B : IZR (k - lo) < IZR (f + 1)) by (rewrite plus_IZR; lra). apply lt_IZR in B. lia. }
+      assert (B : IZR (k - lo) < IZR (f + 1)) by (rewrite (plus_IZR f 1); lra). apply lt_IZR in B. lia. }
     rewrite Ef. repeat f_equal. lia.
 Qed.
 
@@ -171,14 +171,205 @@ Proof.
       destruct K as [K|K]; [left; apply exp_increasing; assumption|right; f_equal; assumption]. }
   split; intros K.
   - assert (Ek : k = f) by (inversion K; reflexivity). subst k. split.
-    + apply Rnot_le_lt. intros C. apply P, Q in C. rewrite plus_IZR in C. lra.
+    + apply Rnot_le_lt. intros C. apply P, Q in C. rewrite (plus_IZR f 1) in C. lra.
     + apply P, Q. assumption.
   - destruct K as [K1 K2]. apply P, Q in K2.
     assert (K3 : ~ IZR (k + 1) <= ln u / ln (1 - p)) by (intros C; apply Q, P in C; lra).
     assert (Ef : f = k).
     { assert (A : IZR f < IZR (k + 1)) by lra. apply lt_IZR in A.
-      assert (B : IZR k < IZR (f + 1)) by (rewrite plus_IZR; lra). apply lt_IZR in B. lia. }
+      assert (B : IZR k < IZR (f + 1)) by (rewrite (plus_IZR f 1); lra). apply lt_IZR in B. lia. }
     rewrite Ef. reflexivity.
+Qed.
+
+(* ---------------- triangular ---------------- *)
+Lemma sqrt_le_sq : forall a b, 0 <= a -> 0 <= b -> (sqrt a <= b <-> a <= b * b).
+Proof.
+  intros a b Ha Hb. split; intros K.
+  - rewrite <- (sqrt_sqrt a Ha). pose proof (sqrt_pos a). nra.
+  - rewrite <- (sqrt_square b Hb). apply sqrt_le_1_alt. assumption.
+Qed.
+
+Lemma sq_le_sqrt : forall a b, 0 <= a -> 0 <= b -> (b <= sqrt a <-> b * b <= a).
+Proof.
+  intros a b Ha Hb. split; intros K.
+  - rewrite <- (sqrt_sqrt a Ha). pose proof (sqrt_pos a). nra.
+  - rewrite <- (sqrt_square b Hb). apply sqrt_le_1_alt. assumption.
+Qed.
+
+Definition g_tri (lo mode hi u : R) : R :=
+  if Rle_dec u ((mode - lo) / (hi - lo))
+  then lo + sqrt ((mode - lo) * (hi - lo) * u)
+  else hi - sqrt ((hi - lo) * (hi - mode) * (1 - u)).
+
+Theorem triangular_draw : forall lo mode hi c u us, lo <= mode <= hi -> lo < hi -> 0 <= u <= 1 ->
+  draw NR false (DTriangular lo mode hi) c (u :: us) = (Val (VF (g_tri lo mode hi u), c), us).
+Proof.
+  intros lo mode hi c u us Hm H Hu. unfold draw, fv, draw_triangular, bind, next, lift, ret, g_tri. unfold one; nr.
+  rewrite r_div_val by lra. unfold Rleb. destruct (Rle_dec u ((mode - lo) / (hi - lo))).
+  - rewrite r_sqrt_val; [reflexivity|]. apply Rmult_le_pos; [apply Rmult_le_pos|]; lra.
+  - rewrite r_sqrt_val; [reflexivity|]. apply Rmult_le_pos; [apply Rmult_le_pos|]; lra.
+Qed.
+
+(* the cdf: rising parabola below the mode, falling one from the mode on *)
+Definition F_tri (lo mode hi x : R) : R :=
+  if Rlt_dec x mode then (x - lo) * (x - lo) / ((hi - lo) * (mode - lo))
+  else 1 - (hi - x) * (hi - x) / ((hi - lo) * (hi - mode)).
+
+(* { u in [0,1] | draw <= x } = [0, F_tri x] *)
+Theorem triangular_inverse_transform : forall lo mode hi u x,
+  lo <= mode <= hi -> lo < hi -> 0 <= u <= 1 -> lo <= x <= hi ->
+  (g_tri lo mode hi u <= x <-> u <= F_tri lo mode hi x).
+Proof.
+  intros lo mode hi u x Hm H Hu Hx. unfold g_tri, F_tri.
+  set (fr := (mode - lo) / (hi - lo)).
+  assert (Hfr : fr * (hi - lo) = mode - lo) by (unfold fr; field; lra).
+  assert (Hfr01 : 0 <= fr <= 1).
+  { split; [apply Rmult_le_reg_r with (hi - lo); lra|apply Rmult_le_reg_r with (hi - lo); lra]. }
+  destruct (Rle_dec u fr) as [Lu|Gu]; destruct (Rlt_dec x mode) as [Lx|Gx].
+  - (* rising branch, x below the mode *)
+    assert (HA : 0 < (hi - lo) * (mode - lo)) by nra.
+    assert (E : lo + sqrt ((mode - lo) * (hi - lo) * u) <= x <-> sqrt ((mode - lo) * (hi - lo) * u) <= x - lo) by (split; lra).
+    rewrite E, sqrt_le_sq by (try nra; lra). split; intros K.
+    + apply Rmult_le_reg_r with ((hi - lo) * (mode - lo)); [assumption|].
+      unfold Rdiv. rewrite Rmult_assoc, Rinv_l by lra. nra.
+    + apply Rmult_le_compat_r with (r := (hi - lo) * (mode - lo)) in K; [|lra].
+      unfold Rdiv in K. rewrite Rmult_assoc, Rinv_l in K by lra. nra.
+  - (* rising branch, x at or above the mode: always true on both sides *)
+    assert (Gx' : mode <= x) by lra.
+    assert (Hu2 : u * (hi - lo) <= mode - lo) by (rewrite <- Hfr; apply Rmult_le_compat_r; lra).
+    assert (S1 : sqrt ((mode - lo) * (hi - lo) * u) <= mode - lo).
+    { apply sqrt_le_sq; [apply Rmult_le_pos; [apply Rmult_le_pos|]; lra|lra|].
+      pose proof (Rmult_le_compat_l (mode - lo) _ _ ltac:(lra) Hu2). nra. }
+    split; intros _; [|lra].
+    destruct (Req_EM_T mode hi) as [Eh|Nh].
+    + subst mode. replace ((hi - lo) * (hi - hi)) with 0 by ring. unfold Rdiv. rewrite Rinv_0. lra.
+    + assert (HB : 0 < (hi - lo) * (hi - mode)) by nra.
+      assert (Q : (hi - x) * (hi - x) / ((hi - lo) * (hi - mode)) <= 1 - fr).
+      { apply Rmult_le_reg_r with ((hi - lo) * (hi - mode)); [assumption|].
+        unfold Rdiv. rewrite Rmult_assoc, Rinv_l by lra. nra. }
+      lra.
+  - (* falling branch, x below the mode: false on both sides *)
+    assert (Gu' : fr < u) by lra.
+    assert (HA : 0 < (hi - lo) * (mode - lo)) by nra.
+    assert (Fx : (x - lo) * (x - lo) / ((hi - lo) * (mode - lo)) < fr).
+    { apply Rmult_lt_reg_r with ((hi - lo) * (mode - lo)); [assumption|].
+      unfold Rdiv. rewrite Rmult_assoc, Rinv_l by lra. nra. }
+    assert (Hv2 : (1 - u) * (hi - lo) <= hi - mode).
+    { replace (hi - mode) with ((1 - fr) * (hi - lo)) by (rewrite Rmult_minus_distr_r, Hfr; ring).
+      apply Rmult_le_compat_r; lra. }
+    assert (S2 : sqrt ((hi - lo) * (hi - mode) * (1 - u)) <= hi - mode).
+    { apply sqrt_le_sq; [apply Rmult_le_pos; [apply Rmult_le_pos|]; lra|lra|].
+      pose proof (Rmult_le_compat_l (hi - mode) _ _ ltac:(lra) Hv2). nra. }
+    split; intros K; exfalso; lra.
+  - (* falling branch, x at or above the mode *)
+    assert (Gu' : fr < u) by lra. assert (Gx' : mode <= x) by lra.
+    assert (Nh : mode < hi).
+    { destruct (Req_EM_T mode hi) as [Eh|Nh]; [|lra]. exfalso. subst mode.
+      assert (fr = 1) by (unfold fr; field; lra). lra. }
+    assert (HB : 0 < (hi - lo) * (hi - mode)) by nra.
+    assert (E : hi - sqrt ((hi - lo) * (hi - mode) * (1 - u)) <= x <-> hi - x <= sqrt ((hi - lo) * (hi - mode) * (1 - u))) by (split; lra).
+    rewrite E, sq_le_sqrt by (try nra; lra). split; intros K.
+    + assert (Q : (hi - x) * (hi - x) / ((hi - lo) * (hi - mode)) <= 1 - u).
+      { apply Rmult_le_reg_r with ((hi - lo) * (hi - mode)); [assumption|].
+        unfold Rdiv. rewrite Rmult_assoc, Rinv_l by lra. nra. }
+      lra.
+    + assert (Q : (hi - x) * (hi - x) / ((hi - lo) * (hi - mode)) <= 1 - u) by lra.
+      apply Rmult_le_compat_r with (r := (hi - lo) * (hi - mode)) in Q; [|lra].
+      unfold Rdiv in Q. rewrite Rmult_assoc, Rinv_l in Q by lra. nra.
+Qed.
+
+(* ---------------- compositions ---------------- *)
+Fixpoint sum_list (l : list R) : R := match l with [] => 0 | x :: r => x + sum_list r end.
+Fixpoint prod_list (l : list R) : R := match l with [] => 1 | x :: r => x * prod_list r end.
+
+Lemma prod_uniforms_val : forall us acc rest, Forall open01 us ->
+  prod_uniforms NR false (length us) acc (us ++ rest) = (Val (acc * prod_list us), rest).
+Proof.
+  induction us as [|u t IH]; intros acc rest Hu; simpl.
+  - unfold ret. nr. rewrite Rmult_1_r. reflexivity.
+  - inversion Hu as [|? ? H1 H2]; subst. unfold open01 in H1.
+    unfold bind, nextp. cbn [next_pos app]. unfold zero; nr.
+    rewrite (proj2 (Reqb_false u 0)) by lra. rewrite IH by assumption. rewrite Rmult_assoc. reflexivity.
+Qed.
+
+Lemma ln_prod_list : forall us, Forall open01 us -> 0 < prod_list us /\ ln (prod_list us) = sum_list (map ln us).
+Proof.
+  induction us as [|u t IH]; intros Hu; simpl.
+  - split; [lra|apply ln_1].
+  - inversion Hu as [|? ? H1 H2]; subst. unfold open01 in H1. destruct (IH H2) as [P L].
+    split; [nra|]. rewrite ln_mult by lra. rewrite L. reflexivity.
+Qed.
+
+(* Erlang with k < 10: the draw is the sum of k exponential(scale) draws made
+   from the same k uniforms *)
+Theorem erlang_is_sum_of_exponentials : forall scale k lam c us rest,
+  0 < scale -> Forall open01 us -> Z.to_nat k = length us ->
+  draw NR false (DErlang scale k lam None) c (us ++ rest) =
+    (Val (VF (sum_list (map (fun u => - scale * ln u) us)), c), rest).
+Proof.
+  intros scale k lam c us rest Hs Hu Hk. unfold draw, fv. rewrite Hk.
+  unfold bind at 1 2. rewrite prod_uniforms_val by assumption.
+  destruct (ln_prod_list us Hu) as [P L]. unfold one, lift, ret; nr. rewrite Rmult_1_l.
+  unfold bind. rewrite r_log_val by assumption. rewrite L.
+  assert (E : - scale * sum_list (map ln us) = sum_list (map (fun u : R => - scale * ln u) us)).
+  { clear. induction us as [|u t IH]; simpl; [ring|]. rewrite <- IH. ring. }
+  rewrite E. reflexivity.
+Qed.
+
+(* the remaining compositions are, by definition of [draw], built from their
+   component draws on the same stream: *)
+Theorem binomial_is_sum_of_bernoullis : forall n p x u us,
+  count_successes NR (S n) p x (u :: us) =
+  count_successes NR n p (if Rleb u p then (x + 1)%Z else x) us.
+Proof. reflexivity. Qed.
+
+Theorem negbinomial_is_sum_of_geometrics : forall s lnp x us,
+  sum_geometrics NR false (S s) lnp x us =
+  match geometric_once NR false lnp us with
+  | (Val g, r) => sum_geometrics NR false s lnp (x + g)%Z r
+  | (Err e, r) => (Err e, r)
+  end.
+Proof. reflexivity. Qed.
+
+Theorem beta_is_gamma_ratio : forall a1 a2 g1 g2 c us,
+  draw NR false (DBeta a1 a2 g1 g2) c us =
+  match draw_gamma NR false (fst g1) (snd g1) us with
+  | (Val y1, r1) =>
+      match draw_gamma NR false (fst g2) (snd g2) r1 with
+      | (Val y2, r2) => (match r_div y1 (y1 + y2) with Val v => Val (VF v, c) | Err e => Err e end, r2)
+      | (Err e, r2) => (Err e, r2)
+      end
+  | (Err e, r1) => (Err e, r1)
+  end.
+Proof.
+  intros. unfold draw, fv, bind, lift, ret. nr.
+  destruct (draw_gamma NR false (fst g1) (snd g1) us) as [[y1|e] r1]; [|reflexivity].
+  destruct (draw_gamma NR false (fst g2) (snd g2) r1) as [[y2|e] r2]; [|reflexivity].
+  destruct (r_div y1 (y1 + y2)); reflexivity.
+Qed.
+
+Theorem pearson5_is_reciprocal_gamma : forall a b g c us,
+  draw NR false (DPearson5 a b g) c us =
+  match draw_gamma NR false (fst g) (snd g) us with
+  | (Val y, r) => (match r_div 1 y with Val v => Val (VF v, c) | Err e => Err e end, r)
+  | (Err e, r) => (Err e, r)
+  end.
+Proof.
+  intros. unfold draw, fv, bind, lift, ret. unfold one; nr.
+  destruct (draw_gamma NR false (fst g) (snd g) us) as [[y|e] r]; [|reflexivity].
+  destruct (r_div 1 y); reflexivity.
+Qed.
+
+Theorem lognormal_is_exp_of_normal : forall mu sigma a b c us,
+  draw NR false (DLogNormal mu sigma a b) c us =
+  match draw NR false (DNormal mu sigma) c us with
+  | (Val (VF x, c'), r) => (Val (VF (exp x), c'), r)
+  | (Val (VI z, c'), r) => (Err Unmodelled, r)
+  | (Err e, r) => (Err e, r)
+  end.
+Proof.
+  intros. unfold draw, bind, lift, ret. nr.
+  destruct (draw_normal NR false mu sigma c us) as [[[x c']|e] r]; reflexivity.
 Qed.
 
 End InvTransform.
